@@ -59,19 +59,23 @@ theorem ideal_eq (cfg : Config) (hc : cfg.clone = .deep) (hp : cfg.parser = .per
     (hok : p.kind = .C → ∃ y, newActivation {} p.decls = .ok y) :
     ideal cfg p b = evalFrom cfg p.kind {} p.decls p.pkg p.expr b := by
   unfold ideal
-  have hI : Inv (run cfg World.init [.mkEnv p.kind p.decls p.pkg, .compile 0 (some p.expr), .program 0 0]) :=
-    inv_run cfg hc hp _ _ Cel.Runtime.inv_init
   cases hk : p.kind with
   | I =>
-    have hprog : (run cfg World.init [.mkEnv p.kind p.decls p.pkg, .compile 0 (some p.expr), .program 0 0]).progs[0]?
+    have hI : Inv (run cfg World.init [.mkEnv .I p.decls p.pkg, .compile 0 (some p.expr), .program 0 0]) :=
+      inv_run cfg hc hp _ _ Cel.Runtime.inv_init
+    have hprog : (run cfg World.init [.mkEnv .I p.decls p.pkg, .compile 0 (some p.expr), .program 0 0]).progs[0]?
         = some ⟨.I, p.decls, p.pkg, p.expr, (0, [])⟩ := by
-      simp [run, step, hp, hk, World.init]
+      simp [run, step, hp, World.init]
+    show (step cfg (run cfg World.init [.mkEnv .I p.decls p.pkg, .compile 0 (some p.expr), .program 0 0]) (.evaluate 0 b)).2 = _
     rw [evaluate_obs cfg hc _ hI 0 _ hprog b]
   | C =>
     obtain ⟨⟨h0, root⟩, hy⟩ := hok hk
-    have hprog : (run cfg World.init [.mkEnv p.kind p.decls p.pkg, .compile 0 (some p.expr), .program 0 0]).progs[0]?
+    have hI : Inv (run cfg World.init [.mkEnv .C p.decls p.pkg, .compile 0 (some p.expr), .program 0 0]) :=
+      inv_run cfg hc hp _ _ Cel.Runtime.inv_init
+    have hprog : (run cfg World.init [.mkEnv .C p.decls p.pkg, .compile 0 (some p.expr), .program 0 0]).progs[0]?
         = some ⟨.C, p.decls, p.pkg, p.expr, root⟩ := by
-      simp [run, step, hp, hk, World.init, hy]
+      simp [run, step, hp, World.init, hy]
+    show (step cfg (run cfg World.init [.mkEnv .C p.decls p.pkg, .compile 0 (some p.expr), .program 0 0]) (.evaluate 0 b)).2 = _
     rw [evaluate_obs cfg hc _ hI 0 _ hprog b]
 
 /-- **History independence.**  After ANY history `ops` from a fresh process, evaluating ANY program `p` of the
@@ -126,34 +130,33 @@ theorem bindings_unchanged_partial (cfg : Config) (hc : cfg.clone = .deep) (hp :
     (step cfg (run cfg World.init ops) (.evaluate i b)).1.heap.get id = some nc :=
   step_frame cfg hc hp _ (inv_run cfg hc hp ops _ Cel.Runtime.inv_init) _ id nc hg
 
-/-- Parser adequacy: after any history, a compiled environment builds programs from the trees it compiled
-itself without the tree-class failure (`AttributeError: 'Tree' object has no attribute 'checked_exception'`). -/
+/-- Parser adequacy: after any history, an environment builds a program from a tree it compiled itself without
+the tree-class failure (`AttributeError: 'Tree' object has no attribute 'checked_exception'`, D2): the only way
+`program` can fail is an invalid declared name (`ValueError` from `load_annotations`). -/
 theorem compiled_program_constructible (cfg : Config) (hc : cfg.clone = .deep) (hp : cfg.parser = .perClass)
-    (ops : List Op) (env : Nat) (x : Expr) :
+    (ops : List Op) (env : Nat) (e : Env) (x : Expr) (he : (run cfg World.init ops).envs[env]? = some e) :
     let w := run cfg World.init ops
     let w1 := (step cfg w (.compile env (some x))).1
-    (step cfg w1 (.program env w.asts.length)).2 ≠ .exc .attributeError := by
+    (step cfg w1 (.program env w.asts.length)).2 =
+      match e.kind, newActivation w.heap e.decls with
+      | .C, .error err => .exc err
+      | _, _ => .done := by
   intro w w1
   have hI := inv_run cfg hc hp ops _ Cel.Runtime.inv_init
-  show (step cfg w1 (.program env w.asts.length)).2 ≠ .exc .attributeError
-  cases he : w.envs[env]? with
-  | none =>
-    have : w1 = w := by show (step cfg w (.compile env (some x))).1 = w; simp [step, he]
-    rw [this]; simp [step, he]
-  | some e =>
-    have hpar : e.parser = e.kind := hI.envs e (List.mem_of_getElem? he)
-    have hw1 : w1 = { w with asts := w.asts ++ [⟨e.kind, x⟩] } := by
-      show (step cfg w (.compile env (some x))).1 = _
-      simp [step, he, hp, hpar]
-    rw [hw1]
-    simp only [step, he, List.getElem?_append_right (Nat.le_refl _), Nat.sub_self, List.getElem?_cons_zero]
-    cases hk : e.kind with
-    | I => simp
-    | C =>
-      simp only
-      cases newActivation w.heap e.decls with
-      | error x => simp [setupExc]; intro h; cases x <;> simp_all
-      | ok y => simp
+  have hpar : e.parser = e.kind := hI.envs e (List.mem_of_getElem? he)
+  have hw1 : w1 = { w with asts := w.asts ++ [⟨e.kind, x⟩] } := by
+    show (step cfg w (.compile env (some x))).1 = _
+    simp [step, show w.envs[env]? = some e from he, hp, hpar]
+  rw [hw1]
+  simp only [step, show w.envs[env]? = some e from he, List.getElem?_append_right (Nat.le_refl _), Nat.sub_self,
+    List.getElem?_cons_zero]
+  cases hk : e.kind with
+  | I => simp
+  | C =>
+    simp only
+    cases newActivation w.heap e.decls with
+    | error x => simp [setupExc]
+    | ok y => simp
 
 /-! ## non-vacuity and the two defects this property found (regressions) -/
 
